@@ -5,7 +5,7 @@ From Coq Require Import ZArith List Bool.
 From PTK Require Import Lib.Sx Lib.Py Lib.C19_Str Gen.C19_Palette
      Model.C19_Palette Model.C19_Style Model.C19_Sgr
      Proofs.C19_PaletteFacts Proofs.C19_StrFacts Proofs.C19_StyleFacts Proofs.C19_SgrFacts
-     Proofs.C19_StyleStringFacts.
+     Proofs.C19_StyleStringFacts Proofs.C19_ResolvedFacts.
 Import ListNotations.
 Open Scope Z_scope.
 
@@ -151,16 +151,38 @@ Theorem C19_sgr_roundtrip_24_attrs : forall a,
 Proof. exact sgr_roundtrip_24_attrs. Qed.
 Print Assumptions C19_sgr_roundtrip_24_attrs.
 
-(* ... but RESOLVED attributes are not always in that domain: parse_color
-   accepts "#" followed by any 6 (or 3) characters, the encoder drops such a
-   colour silently (finding C19-F1). *)
-Theorem C19_sgr_roundtrip_resolved_refuted :
-  exists rules s a,
-    style_get rules s DEFAULT_ATTRS = Ok a /\
-    a_color a = Some [122; 122; 122; 122; 122; 122] /\
-    exists back, decode_seq (escape_code 24 a) = Ok back /\ a_color back = Some [].
-Proof. exact resolved_roundtrip_refuted. Qed.
-Print Assumptions C19_sgr_roundtrip_resolved_refuted.
+(* Every colour parse_color returns lies in that domain (ANSI name, six
+   hexadecimal digits, "" or "default") ... *)
+Theorem C19_parse_color_in_domain : forall t c,
+  parse_color t = Some c -> color_ok (Some c) = true.
+Proof. exact parse_color_in_domain. Qed.
+Print Assumptions C19_parse_color_in_domain.
+
+(* ... hence so do the colours of every RESOLVED Attrs, for any sheet and
+   style string (and any default that does, e.g. DEFAULT_ATTRS) ... *)
+Theorem C19_resolved_in_domain : forall rules s d a,
+  rt_dom d -> style_get rules s d = Ok a -> rt_dom a.
+Proof. exact resolved_in_domain. Qed.
+Print Assumptions C19_resolved_in_domain.
+
+(* ... and the sequence emitted for resolved attributes decodes back to the
+   same attributes at 24-bit depth. *)
+Theorem C19_sgr_roundtrip_resolved : forall rules s d a,
+  rt_dom d -> style_get rules s d = Ok a ->
+  decode_seq (escape_code 24 a) = Ok (canon a).
+Proof. exact sgr_roundtrip_resolved. Qed.
+Print Assumptions C19_sgr_roundtrip_resolved.
+
+Example C19_default_in_domain : rt_dom DEFAULT_ATTRS.
+Proof. exact default_in_domain. Qed.
+Print Assumptions C19_default_in_domain.
+
+(* parse_color as it stood before the fix d87ad65 did not have this property
+   (finding C19-F1, repaired): "#zzzzzz" was accepted, now it is rejected. *)
+Theorem C19_parse_color_pinned_refuted :
+  exists t c, parse_color_pinned t = Some c /\ color_ok (Some c) = false /\ parse_color t = None.
+Proof. exact parse_color_pinned_refuted. Qed.
+Print Assumptions C19_parse_color_pinned_refuted.
 
 (* 1-bit depth: no colour code at all. *)
 Theorem C19_depth1_no_colour : forall fg bg, colors_to_code 1 fg bg = [].
